@@ -109,6 +109,21 @@ def run(ck, supports_table=None):
                     inner = ("sort a | " if sorted_ else "") + ("window %s (derive {x = %s})" % (atxt, ftxt) if atxt else "derive {x = %s}" % ftxt)
                     src = "from t | " + ("group g (%s)" % inner if grouped else inner) + " | select {x}"
                     cases.append({"src": src, "args": acoq, "sorted": sorted_, "grouped": grouped, "fn": fsql, "supports": sup, "atxt": atxt})
+    # two sort keys: every range frame (the ORDER BY inside OVER keeps BOTH keys: peers are rows equal under all of them)
+    # and a few rows frames
+    for grouped in (False, True):
+        for ftxt, fsql, sup in FNS:
+            if fsql not in ("SUM", "COUNT", "LAST_VALUE", "RANK"):
+                continue
+            name = ftxt.split()[0]
+            if supports_table is not None and name in supports_table:
+                sup = supports_table[name]
+            for atxt, acoq in args:
+                if not (atxt.startswith("range:") or atxt in ("rows:(-1)..1", "rows:..0", "rolling:2", "expanding:true")) or " " in atxt:
+                    continue
+                inner = "sort {a, -c} | window %s (derive {x = %s})" % (atxt, ftxt)
+                src = "from t | " + ("group g (%s)" % inner if grouped else inner) + " | select {x}"
+                cases.append({"src": src, "args": acoq, "sorted": True, "nsort": 2, "grouped": grouped, "fn": fsql, "supports": sup, "atxt": atxt})
     # no window at all
     for sorted_ in (True, False):
         for ftxt, fsql, sup in FNS:
@@ -119,7 +134,7 @@ def run(ck, supports_table=None):
             cases.append({"src": src, "args": None, "sorted": sorted_, "grouped": False, "fn": fsql, "supports": sup, "atxt": "(no window)"})
     # the same over a relation literal with a header and no rows (/repo 8204886: used to panic in the resolver): the
     # window reaches RQ / SQL unchanged, and the emitted query runs and yields no row
-    empty_base = 'from_text format:csv "a,b,g\\n"'
+    empty_base = 'from_text format:csv "a,b,c,g\\n"'
     extra = []
     for c in cases:
         if c["fn"] in ("SUM", "LAST_VALUE", "RANK") and c["atxt"] in ("rows:(-1)..1", "range:..0", "rolling:2", "expanding:true", "rows:1..0", "rows:0..(-1)", "(no window)", "rows:..") \
@@ -165,7 +180,7 @@ def run(ck, supports_table=None):
                     w = t["Compute"]["window"]
                     got_rq = (w["frame"]["kind"], lit(w["frame"]["range"]["start"]), lit(w["frame"]["range"]["end"]),
                               len(w["partition"]), len(w["sort"]))
-        if got_rq is None or got_rq[:3] != want_rq or got_rq[3] != (1 if c["grouped"] else 0) or got_rq[4] != (1 if c["sorted"] else 0):
+        if got_rq is None or got_rq[:3] != want_rq or got_rq[3] != (1 if c["grouped"] else 0) or got_rq[4] != (c.get("nsort", 1) if c["sorted"] else 0):
             ck.stat("frame-corr", "disagreement:rq-window")
             ck.disagreement("window frame in RQ differs from the model of the `window` transform: %s: impl %r, model %r (partition %d, sort %d expected)" % (
                 c["src"], got_rq, want_rq, 1 if c["grouped"] else 0, 1 if c["sorted"] else 0),
@@ -180,7 +195,7 @@ def run(ck, supports_table=None):
                 got = cl[0]
             else:
                 got = "?" + a["ok"]
-        want = ("PARTITION BY g " if c["grouped"] else "") + ("ORDER BY a " if c["sorted"] else "") + mtext
+        want = ("PARTITION BY g " if c["grouped"] else "") + (("ORDER BY a, c DESC " if c.get("nsort") == 2 else "ORDER BY a ") if c["sorted"] else "") + mtext
         want = want.strip()
         ck.stat("frame-corr", "elided" if not mtext else "explicit")
         if got != want:
